@@ -10,6 +10,7 @@ import glob
 import itertools
 import json
 import os
+import random
 import re
 
 from vlib.core import C, Raw, coq
@@ -98,21 +99,135 @@ def exhaustive_programs():
         yield {"clauses": cl, "layers": layers, "init": init, "pre": [], "features": ["exhaustive"]}
 
 
+# ------------------------------------------------------------------ alias stream
+# The Coq model has no variable-variable aliasing (Solve.v: `X = Y` with both sides unbound
+# is an error of the model), so the main stream never writes such clauses and the union-find
+# chains of the real engine (Var -> Var -> constant) stay untouched by it. The alias stream
+# covers them without the model: an alias-free original (compared with the model as every
+# other program) and a declaratively equivalent variant in which occurrences of a variable
+# are handed to fresh variables tied to it by equalities (dc.alias_step) are both evaluated
+# by Go; results must be equal. Only variants whose changed clauses the real analysis
+# accepts (runner c01an) are used.
+ALIAS_CLAUSES = 3       # clauses of one original that get candidates
+ALIAS_CANDS = 5         # candidates per clause
+
+
+def alias_pick_clauses(arng, prog):
+    idx = [i for i, c in enumerate(prog["clauses"]) if c["body"]]
+    if not idx:
+        return []
+    w = [4 if prog["clauses"][i].get("let") else 1 for i in idx]
+    out = []
+    for _ in range(ALIAS_CLAUSES):
+        i = arng.choices(idx, w)[0]
+        if i not in out:
+            out.append(i)
+    return out
+
+
+def alias_weight(infos):
+    return 3 if any(x["placement"] == "before" for x in infos) else 1
+
+
+def alias_build_variants(arng, prog, cands, accepted, nvar):
+    """cands: {clause index: [(clause, infos)]}, accepted: {clause index: [bool]}.
+    Returns [(variant program, {clause index: infos})]: first one clause aliased, then all."""
+    ok = {i: [c for c, a in zip(cands[i], accepted[i]) if a] for i in cands}
+    ok = {i: l for i, l in ok.items() if l}
+    if not ok:
+        return []
+    out, seen = [], set()
+    for k in range(nvar):
+        which = [arng.choice(sorted(ok))] if k == 0 else sorted(ok)
+        cl = list(prog["clauses"])
+        ops = {}
+        for i in which:
+            c, infos = arng.choices(ok[i], [alias_weight(x[1]) for x in ok[i]])[0]
+            cl[i] = c
+            ops[i] = infos
+        v = dict(prog, clauses=cl)
+        t = dc.to_mangle(v)
+        if t not in seen:
+            seen.add(t)
+            out.append((v, ops))
+    return out
+
+
+def group_obs(g):
+    """Comparable observable of one result group: (error class, canonical fact list)."""
+    if g["err"] != "":
+        return (g["err"], None)
+    return ("", dc.canon(dc.facts_from_go(g["facts"])))
+
+
+def alias_compare(orig_out, var_out):
+    """-> (verdict, detail). verdict: equal | inconclusive | rejected | differ | stores-differ"""
+    if var_out["stage"] != "ok":
+        return "rejected", var_out.get("msg", "")
+    og, vg = orig_out["groups"], var_out["groups"]
+    if len(og) != 1:
+        return "inconclusive", "original already disagrees between store kinds"
+    if any(g["err"] in ("limit", "timeout") for g in og + vg):
+        return "inconclusive", "fact limit / time guard"
+    if len(vg) != 1:
+        return "stores-differ", ""
+    a, b = group_obs(og[0]), group_obs(vg[0])
+    return ("equal", a[0] or "ok") if a == b else ("differ", "")
+
+
+def alias_replay_dict(prog, var, ops, src, vsrc, pre, orig_out, var_out, origin):
+    def show(o):
+        if o["stage"] != "ok":
+            return {"stage": o["stage"], "msg": o.get("msg")}
+        return [{"configs": g["configs"], "err": g["err"], "msg": g.get("msg"),
+                 "facts": group_obs(g)[1]} for g in o["groups"]]
+    rep = {"property": "C01", "alias": True, "origin": origin,
+           "kind": "alias stream: the variant with variable-variable equalities and the alias-free original "
+                   "(same declarative reading) evaluate differently",
+           "program": prog, "variant": var, "ops": {str(k): v for k, v in ops.items()},
+           "src": src, "variant_src": vsrc, "pre": pre,
+           "changed_clauses": [{"original": dc.clause_text(prog["clauses"][i]), "variant": dc.clause_text(var["clauses"][i])}
+                               for i in sorted(ops)],
+           "original_result": show(orig_out), "variant_result": show(var_out)}
+    if orig_out["stage"] == "ok" and var_out["stage"] == "ok" and len(orig_out["groups"]) == 1 and len(var_out["groups"]) == 1:
+        a, b = group_obs(orig_out["groups"][0]), group_obs(var_out["groups"][0])
+        if a[1] is not None and b[1] is not None:
+            rep["missing_in_variant"] = sorted(set(a[1]) - set(b[1]))
+            rep["extra_in_variant"] = sorted(set(b[1]) - set(a[1]))
+    return rep
+
+
 # ------------------------------------------------------------------ the check
 def run(ck):
     ck.obligations()
     ck.build_harness()
     rng = ck.rng
+    # the alias stream draws from its own generator (derived from the seed only), so the
+    # main stream of a given seed is the same with and without it
+    arng = random.Random("%s/alias/%d" % (ck.pid, ck.seed))
     progs, origin = [], []
+    corpus_variants = {}      # program index -> [(variant program, note)] (corpus/C01/alias_*.json)
     here = os.path.dirname(os.path.abspath(__file__))
     for path in sorted(glob.glob(os.path.join(here, "..", "corpus", "C01", "*.json"))):
-        progs.append(json.load(open(path))["program"])
+        doc = json.load(open(path))
+        if doc.get("alias_variants"):
+            corpus_variants[len(progs)] = doc["alias_variants"]
+        progs.append(doc["program"])
         origin.append("corpus:" + os.path.basename(path))
     ncorpus = len(progs)
     for _ in range(ck.n(200, 4000)):
         progs.append(dc.gen_program(rng, big=(not ck.quick) and rng.random() < 0.5))
         origin.append("random")
     nrandom = len(progs) - ncorpus
+    # templates of the alias stream: generated programs whose non-recursive clauses got
+    # let-transforms (dc.add_lets); ordinary members of the main stream as well
+    ntemplate = 0
+    for _ in range(ck.n(40, 800)):
+        p, sig = dc.gen_program_sig(arng, big=(not ck.quick) and arng.random() < 0.3)
+        if dc.add_lets(arng, p, sig):
+            progs.append(p)
+            origin.append("alias-template")
+            ntemplate += 1
     nexh = 0
     if not ck.quick:
         ex = list(exhaustive_programs())
@@ -132,15 +247,80 @@ def run(ck):
     # store kinds: quick = 2 random kinds per program (+ all six on the corpus), thorough = all six
     go_cases = []
     for i, p in enumerate(progs):
+        r = arng if origin[i] == "alias-template" else rng
+        generated = origin[i] in ("random", "alias-template")
         if origin[i] == "exhaustive":
             stores, det = ["simple", "array"], [False]
-        elif ck.quick and origin[i] == "random":
-            stores, det = rng.sample(ALL_STORES, 2), [rng.random() < 0.5]
+        elif ck.quick and generated:
+            stores, det = r.sample(ALL_STORES, 2), [r.random() < 0.5]
         else:
             stores, det = ALL_STORES, [False, True]
-        go_cases.append(go_case(p, stores, det, shuffle_rng=rng if origin[i] == "random" and rng.random() < 0.5 else None))
-    outs = ck.run_go("c01", go_cases, timeout=3000)
-    ck.log("go side done: %d programs" % len(progs))
+        go_cases.append(go_case(p, stores, det, shuffle_rng=r if generated and r.random() < 0.5 else None))
+
+    # ---- alias stream: candidates -> real analysis -> variant programs
+    al = {"originals": 0, "clauses_tried": 0, "candidates": 0, "candidates_accepted": 0, "variants": 0,
+          "accepted_by": {}, "used_by": {}, "analysis_rejections": {}}
+
+    def tally(d, infos):
+        for x in infos:
+            for key in ("mode:" + x["mode"], "placement:" + x["placement"], "chain:%d" % x["chain"],
+                        "binder:" + x["binder"], "eq_before_binder:%s" % x["eq_before_binder"]):
+                d[key] = d.get(key, 0) + 1
+            for o in x["orient"]:
+                d["orient:" + o] = d.get("orient:" + o, 0) + 1
+            for k in x["moved"]:
+                d["moved:" + k] = d.get("moved:" + k, 0) + 1
+            if x["only"]:
+                d["only:" + x["only"]] = d.get("only:" + x["only"], 0) + 1
+        if len(infos) > 1:
+            d["two_variables"] = d.get("two_variables", 0) + 1
+    alias_orig = [i for i in range(len(progs)) if origin[i] != "exhaustive" and i not in corpus_variants]
+    cands, an_cases = {}, []
+    for i in alias_orig:
+        cands[i] = {}
+        for ci in alias_pick_clauses(arng, progs[i]):
+            cc = dc.alias_candidates(arng, progs[i]["clauses"][ci], ALIAS_CANDS)
+            if cc:
+                cands[i][ci] = cc
+        an_cases.append({"clauses": [dc.clause_text(c) for ci in sorted(cands[i]) for c, _ in cands[i][ci]]})
+    an_outs = ck.run_go("c01an", an_cases, timeout=3000)
+    variants = []          # (original index, variant program, ops, go case)
+    for i, o in zip(alias_orig, an_outs):
+        if "out" not in o:
+            raise RuntimeError("runner c01an failed: %s" % json.dumps(o)[:500])
+        flags, msgs = list(o["out"]["ok"]), list(o["out"]["msg"])
+        accepted = {}
+        for ci in sorted(cands[i]):
+            k = len(cands[i][ci])
+            accepted[ci], flags = flags[:k], flags[k:]
+            mm, msgs = msgs[:k], msgs[k:]
+            al["clauses_tried"] += 1
+            al["candidates"] += k
+            for (c, infos), a, m in zip(cands[i][ci], accepted[ci], mm):
+                if a:
+                    al["candidates_accepted"] += 1
+                    tally(al["accepted_by"], infos)
+                else:
+                    key = re.sub(r"V\d+|p\d+\(.*|\".*|:\w+\(.*", "_", m)[:60]
+                    al["analysis_rejections"][key] = al["analysis_rejections"].get(key, 0) + 1
+        vs = alias_build_variants(arng, progs[i], cands[i], accepted, ck.n(2, 2))
+        if vs:
+            al["originals"] += 1
+        for v, ops in vs:
+            gc = go_cases[i]
+            stores, det = (gc["stores"], gc["det"]) if ck.quick else (ALL_STORES, [False, True])
+            variants.append((i, v, ops, go_case(v, stores, det, shuffle_rng=arng if arng.random() < 0.5 else None)))
+            for infos in ops.values():
+                tally(al["used_by"], infos)
+    for i in sorted(corpus_variants):
+        al["originals"] += 1
+        for v in corpus_variants[i]:
+            variants.append((i, v["program"], {}, go_case(v["program"], ALL_STORES, [False, True])))
+    al["variants"] = len(variants)
+    all_outs = ck.run_go("c01", go_cases + [v[3] for v in variants], timeout=3000)
+    outs, var_outs = all_outs[:len(go_cases)], all_outs[len(go_cases):]
+    ck.log("go side done: %d programs, %d alias variants of %d originals (%d/%d candidate clauses accepted by analysis)"
+           % (len(progs), len(variants), al["originals"], al["candidates_accepted"], al["candidates"]))
 
     terms, where = [], []
     rejected, stage_counts = [], {}
@@ -202,6 +382,63 @@ def run(ck):
         rep["why_violation"] = ("Props/C01.v proves that the model outcome is the stratified least model "
                                 "(strata_exact); the Go store differs from it on this accepted program")
         ck.violation(rep)
+    # ---- alias stream verdicts: decided on Go's own outputs (original vs variant); the
+    # original's agreement with the model (above) ties the common result to the least model
+    model_verdict = {}
+    for (i, g), v in zip(where, verdicts):
+        model_verdict.setdefault(i, []).append(v)
+    al["results"] = {}
+    al["samples"] = []
+    al_evals = 0
+    for (i, v, ops, gc), o in zip(variants, var_outs):
+        oo = outs[i]
+        if "out" not in o:
+            ck.violation({"property": "C01", "alias": True, "kind": "harness error/panic on an alias variant",
+                          "program": progs[i], "variant": v, "variant_src": gc["src"], "impl": o})
+            continue
+        if "out" not in oo or oo["out"]["stage"] != "ok":
+            al["results"]["original not evaluated"] = al["results"].get("original not evaluated", 0) + 1
+            continue
+        if o["out"]["stage"] == "ok":
+            al_evals += sum(len(g["configs"]) for g in o["out"]["groups"])
+        verdict, detail = alias_compare(oo["out"], o["out"])
+        key = verdict + (":" + detail if verdict == "equal" else "")
+        al["results"][key] = al["results"].get(key, 0) + 1
+        if verdict == "equal" and len(al["samples"]) < 3 and ops:
+            al["samples"].append({"original": [dc.clause_text(progs[i]["clauses"][k]) for k in sorted(ops)],
+                                  "variant": [dc.clause_text(v["clauses"][k]) for k in sorted(ops)],
+                                  "result": detail})
+        if verdict in ("equal", "inconclusive", "rejected"):
+            # "rejected": every changed clause passed the analysis alone, the whole text did not
+            continue
+        if len(ck.violations) >= 5:
+            continue
+        rep = alias_replay_dict(progs[i], v, ops, go_cases[i]["src"], gc["src"], gc["pre"], oo["out"], o["out"], origin[i])
+        rep["original_vs_model"] = model_verdict.get(i)
+        if verdict == "differ":
+            fs = []
+            for g in oo["out"]["groups"] + o["out"]["groups"]:
+                if g["err"] == "":
+                    fs += dc.facts_from_go(g["facts"])
+            coll = dc.f8_collisions(fs)
+            if coll:
+                f8_skipped += 1
+                ck.known("F8 a generated program produced two facts with equal Atom.Hash(): %s / %s" % coll[0])
+                continue
+        rep["why_violation"] = ("both texts have the same declarative reading (the variant only renames occurrences of a "
+                                "variable to fresh variables and adds equalities that tie them to it) and both are accepted "
+                                "by the analysis, so both have the same stratified least model; Go's results differ, hence "
+                                "at least one of them is not that model (the original's comparison with the Coq model, "
+                                "judge codes %s, says which)" % model_verdict.get(i))
+        ck.violation(rep)
+    evaluations += al_evals
+    al["evaluations"] = al_evals
+    al["rule"] = ("per original up to %d clauses x %d candidate variants (dc.alias_step: 1-3 fresh variables per aliased "
+                  "variable, equalities in both orientations at random body positions, half of them before the premise "
+                  "that first mentions the variable; occurrences moved by kind: let / head / negated atom / comparison / "
+                  "!= / function argument / positive atom / random); candidates judged by the real analysis one clause "
+                  "at a time; up to 2 variant programs per original; results compared as (error class, canonical fact "
+                  "set) with the original's" % (ALIAS_CLAUSES, ALIAS_CANDS))
     inconclusive = vc.get(4, 0) + vc.get(5, 0)
     feats = {}
     for p in progs:
@@ -219,8 +456,11 @@ def run(ck):
     cov = {"evaluations": evaluations, "programs": len(progs), "comparisons": len(terms),
            "distinct_nontrivial": len(nontrivial),
            "rule": "programs through parse -> AnalyzeOneUnit -> EvalProgram per store kind x WithDeterministicOrder "
-                   "(corpus %d, random %d, exhaustive %d); evaluations = engine runs; non-trivial = recursion, "
-                   "negation, comparison or same-round join present; distinct by program text" % (ncorpus, nrandom, nexh),
+                   "(corpus %d, random %d, let-templates of the alias stream %d, exhaustive %d) and compared with the Coq "
+                   "model; plus the alias stream (coverage.alias_stream: Go on an alias-free original vs Go on its "
+                   "variable-aliasing variants); evaluations = engine runs of both; non-trivial = recursion, "
+                   "negation, comparison or same-round join present; distinct by program text"
+                   % (ncorpus, nrandom, ntemplate, nexh),
            "exhaustive": nexh > 0,
            "exhaustive_scope": ("all stratifiable safe programs of 2 free rules (+1 seed rule) with bodies of <=2 literals "
                                 "over 2 extensional and 2 derived unary/binary predicates, 2 variables, negation included"
@@ -230,19 +470,22 @@ def run(ck):
            "go_outcomes": errs, "verdicts": {str(k): n for k, n in sorted(vc.items())},
            "inconclusive": inconclusive, "f8_trigger_skipped": f8_skipped,
            "facts_per_result": {"max": max(sizes or [0]), "mean": round(sum(sizes) / max(1, len(sizes)), 1)},
-           "coqchk": coqchk,
+           "coqchk": coqchk, "alias_stream": al,
            "samples": [go_cases[ncorpus]["src"], go_cases[min(len(go_cases) - 1, ncorpus + 1)]["src"]]}
     if rej_random:
         cov["rejected_samples"] = [(go_cases[i]["src"], m) for i, _, m in rej_random[:3]]
     # the generator must stay inside what the analysis accepts, otherwise the run proves little
-    if len(rej_random) > 0.1 * max(1, ncorpus + nrandom):
+    if len(rej_random) > 0.1 * max(1, ncorpus + nrandom + ntemplate):
         ck.violation({"property": "C01", "kind": "generator: more than 10% of the generated programs rejected by analysis",
                       "no_longer_checks": "correspondence Run.C01.judge (input distribution broken)",
                       "samples": cov["rejected_samples"]}, "no-failing-input-found")
     return ck.finish(cov, assumptions=[
         "model hand-written (coq/Datalog/*.v); tied to engine/seminaivebottomup.go, premise.go, transformer.go, "
         "functional.go by differential evaluation only",
-        "union-find substitutions abstracted to association lists; variable-variable aliasing (unsafe clauses only) not modelled",
+        "union-find substitutions abstracted to association lists; variable-variable aliasing is not in the Coq model: "
+        "it is covered by the alias stream, which compares Go with Go (variant vs alias-free original) and relies on the "
+        "declarative equivalence of the two texts (argued in notes/C01.md, not machine-checked) and on the original's "
+        "agreement with the model",
         "fragment: names, strings, int64 numbers, pairs, lists; fn:plus/minus/mult/div/pair/cons/list/len; "
         "= != < <= > >=; let-transforms; no floats, maps, structs, temporal facts, external/deferred/merge predicates, do-transforms (C02)",
         "programs are safe by construction: != , comparisons and negated atoms after their binders (findings N19, F3 belong to C04), "
@@ -267,6 +510,21 @@ def replay(ck, path):
         v = ck.run_coq("C01", "judge", [cq_case(prog, g)])[0]
         print("replay: configs %s: verdict %d %s" % (g["configs"], v, VERDICT.get(v, "agree")))
         bad = bad or v in (1, 2, 3)
+    if rep.get("alias") and "variant" in rep:
+        # alias stream: the variant's result on Go must equal the original's
+        vc = go_case(rep["variant"], ALL_STORES, [False, True])
+        if "variant_src" in rep:
+            vc["src"] = rep["variant_src"]
+        vo = ck.run_go("c01", [vc])[0]
+        if "out" not in vo:
+            print("replay: alias variant: harness error %s" % json.dumps(vo)[:300])
+            bad = True
+        else:
+            verdict, detail = alias_compare(out["out"], vo["out"])
+            print("replay: alias variant vs original on Go: %s %s" % (verdict, detail))
+            for g in (vo["out"].get("groups") or []):
+                print("replay:   variant configs %s: err=%r %s" % (g["configs"], g["err"], (g.get("msg") or "")[:200]))
+            bad = bad or verdict in ("differ", "stores-differ")
     if bad:
         print("VIOLATION property=C01 replay=%s" % path)
         return 1
